@@ -1,0 +1,20 @@
+//go:build verif
+
+// Contracts for package task, read by /verif/bin/gvc (contract-based deductive verification).
+// This file contains comments only; it is compiled only under the build tag "verif".
+package task
+
+//@ nonnil Executor.Taskfile Executor.Logger Executor.Compiler
+
+//@ ghost func onceKey(t *ast.Task) string
+//@ ghost func changedKey(t *ast.Task) string
+
+// ---- C06: the run mode selects the deduplication key ------------------------------------------
+
+//@ func (*Executor).GetHash
+//@   pure
+//@   ensures (t.Run != "" ? t.Run : e.Taskfile.Run) == "always" ==> result.0 == "" && result.1 == nil            [C06]
+//@   ensures (t.Run != "" ? t.Run : e.Taskfile.Run) == "once" ==> result.0 == onceKey(t) && result.1 == nil       [C06]
+//@   ensures (t.Run != "" ? t.Run : e.Taskfile.Run) == "when_changed" ==> result.0 == changedKey(t)                [C06]
+//@   ensures (t.Run != "" ? t.Run : e.Taskfile.Run) != "always" && (t.Run != "" ? t.Run : e.Taskfile.Run) != "once"
+//@           && (t.Run != "" ? t.Run : e.Taskfile.Run) != "when_changed" ==> result.1 != nil                        [C06]
